@@ -76,10 +76,15 @@ def check(ctx, replay=None):
     LONG = "t" * 242
 
     def fresh_binary(tag, base="target"):
+        # every scenario has a binary of its own: own directory, own NAME (short: target_<tag>; long: padded to 242 characters) and own
+        # CONTENT (the tag appended), so that nothing one scenario leaves in the shared cache directory can be mistaken for another's
         bdir = os.path.join(d, "bin_%s" % tag)
         os.makedirs(bdir, exist_ok=True)
-        b = os.path.join(bdir, base)
+        name = ("target_%s" % tag) if base == "target" else (("t%s_" % tag) + base)[:len(base)]
+        b = os.path.join(bdir, name)
         shutil.copy(os.path.join(d, "probetarget"), b)
+        with open(b, "ab") as f:
+            f.write(("scenario %s" % tag).encode())
         created.append(cmdfam.cache_path(b))
         return b
     try:
